@@ -119,11 +119,14 @@ async fn episode(p: &EpParams, mt: bool) -> EpReport {
                         0 => {
                             let _ = cx.pull(&s, 2, true).await;
                         }
+                        // (a third of these carry no ack IDs at all: the name is looked up all the same)
                         1 => {
-                            let _ = cx.ack(&s, &["1".to_string()]).await;
+                            let ids = if r.chance(1, 3) { vec![] } else { vec!["1".to_string()] };
+                            let _ = cx.ack(&s, &ids).await;
                         }
                         _ => {
-                            let _ = cx.modify(&s, &["1".to_string()], 15).await;
+                            let ids = if r.chance(1, 3) { vec![] } else { vec!["1".to_string()] };
+                            let _ = cx.modify(&s, &ids, 15).await;
                         }
                     },
                 }
